@@ -11,9 +11,10 @@ import struct
 
 from hypothesis import strategies as st
 
+from vlib import build
 from vlib import eclcodec as EC
 from vlib.runner import Check, Discard, sha
-from vlib.probe import LibError, hexf
+from vlib.probe import LibError, ProbeCrash, hexf
 
 NO_WG = ":+:+:+:+"
 GRIDS = [(17, 17, 17), (20, 25, 10), (7, 31, 23), (50, 10, 10), (10, 10, 50)]   # all >= 4913 cells, >= 100 columns
@@ -493,10 +494,16 @@ class C10(Check):
     ID = "C10"
     deferred = []
     PROBE_GROUP = "smryio"
-    # glibc heap perturbation: fresh heap memory is filled with 0xA0, freed memory with 0x5F
-    # (tcache off: it bypasses the perturbation).  Makes reads of
-    # uninitialised / out-of-bounds heap bytes deterministic (and, for text parsing, harmless: 0xA0 ends a number).
-    PROBE_ENV = {"MALLOC_PERTURB_": "95", "GLIBC_TUNABLES": "glibc.malloc.tcache_count=0"}
+    # heap poisoning (harness/c10/heapfill.cpp, LD_PRELOAD): every malloc'ed block is filled with 0xA0 over its whole
+    # usable size.  Reads of uninitialised heap bytes / short over-reads behind a buffer become deterministic, and
+    # for text parsing harmless (0xA0 ends a number); read_digit_heap() repeats one read with the fill '0'.
+    HEAPFILL = os.path.join(build.BUILD, "c10_heapfill.so")
+    PROBE_ENV = {"LD_PRELOAD": HEAPFILL, "C10_HEAP_FILL": "160"}
+
+    def prepare(self, tier):
+        build.ensure_single("c10_heapfill.so", os.path.join(build.HARNESS, "c10", "heapfill.cpp"), kind="plain",
+                            extra_flags=["-shared", "-fPIC", "-O1"], needs_lib=False)
+
     RULE = ("A case = one summary run (optionally continuing a base run at report step r) x {formatted, unformatted} x "
             "{unified, separate} x writer {library out::Summary driven by a generated deck (TIME+YEARS+blocks/wells/"
             "field/misc/regions/inter-region pairs), independent Python encoder (all vector categories)} with N vectors "
@@ -519,7 +526,7 @@ class C10(Check):
         "(unformatted only) or the Python encoder; make_esmry_file never records the restart link (documented: "
         "'only works for single smspec files'), so converted files are checked as single runs",
         "no NaN/Inf values; report-step numbers < 10000 (Snnnn)"]
-    EXAMPLES = {"quick": 14, "thorough": 220}
+    EXAMPLES = {"quick": 40, "thorough": 700}
     MIN_EVALS = {"quick": 400, "thorough": 3000}
     TIME_CAP = {"quick": 150, "thorough": 1000}
     EXHAUSTIVE = True
@@ -556,6 +563,27 @@ class C10(Check):
                                        "idgap": 0, "flush": 0xFFFF if i % 4 else 0x5A5A},
                                "base": None, "esmry": bool(i % 5 < 2), "startdat3": bool(i % 7 == 0),
                                "ext": [], "subset": i}
+        # runs continuing a base run
+        bns = [3, 11, 999, 1001, 2000] if tier == "quick" else [1, 2, 3, 7, 11, 999, 1000, 1001, 1999, 2001, 3000, 4001]
+        for n in bns:
+            for fmt in (False, True):
+                for unif in (False, True):
+                    for writer in ("py", "lib"):
+                        for vectors in ("same", "other"):
+                            i += 1
+                            brs = [[2, 1, 2], [1, 3, 1, 1], [2, 2]][i % 3]
+                            if vectors == "other":
+                                vectors = ["perm", "sub", "super"][i % 3]
+                            yield {"writer": writer, "fmt": fmt, "unif": unif, "grid": i % len(GRIDS), "field": bool(i % 3 == 0),
+                                   "start": [1 + i % 28, 1 + i % 12, 1990 + i % 40, 0 if i % 2 else 23, 0 if i % 2 else 59, 0],
+                                   "run": {"n": n, "vseed": i, "style": ["mixed", "well", "block"][i % 3],
+                                           "rsteps": [[1, 2], [3, 1, 1]][i % 2], "dt8": [8, 3, 20, 1],
+                                           "idgap": 0, "flush": 0xFFFF if i % 4 else 0x3333},
+                                   "base": {"run": {"n": n, "vseed": i + 1000, "style": ["mixed", "well", "block"][i % 3],
+                                                    "rsteps": brs, "dt8": [4, 9, 2], "idgap": 0, "flush": 0xFFFF},
+                                            "r": 1 + (i // 3) % len(brs), "vectors": vectors,
+                                            "where": ["same", "sub", "abs", "abslong"][(i // 2) % 4]},
+                                   "esmry": bool(i % 5 < 3), "startdat3": False, "ext": [], "subset": i}
 
     def classify(self, case):
         run = case["run"]
@@ -602,7 +630,7 @@ class C10(Check):
         run["first_rs"] = first_rs
         plan = run_plan(run, t0, first_rs)
         M = len(plan)
-        model = {"plan": plan, "grid": grid, "base": base_name, "dir": dirp}
+        model = {"plan": plan, "grid": grid, "base": base_name, "dir": dirp, "restart_root": restart[0] if restart else ""}
         if case["writer"] == "py":
             vecs = vecs_override if vecs_override is not None else py_vectors(run["n"], run["vseed"], run["style"], grid)
             ids = []
@@ -658,7 +686,15 @@ class C10(Check):
                 s["wv"] = [[-(m * 1024 + 3 * w + 1) * 1e-5, -(m * 1024 + 3 * w + 2) * 1e-5, -(m * 1024 + 3 * w + 3) * 1e-3,
                             (m * 1024 + w + 1) * 1.0e4, (m * 1024 + w + 1) * 1.0e3] for w in range(len(req["wells"]))]
             steps.append(s)
-        r = P.call("smry_write", deck=deck, dir=dirp, base=base_name, esmry=bool(case["esmry"]), blocks=blocks,
+        deck_path = os.path.join(dirp, base_name + ".DATA")
+        with open(deck_path, "w") as f:
+            f.write(deck)
+        if restart:
+            # the input layer only wants the restart file of the base run to exist
+            rp = restart[0] if os.path.isabs(restart[0]) else os.path.join(dirp, restart[0])
+            with open("%s.X%04d" % (rp, restart[1]), "wb"):
+                pass
+        r = P.call("smry_write", deck_path=deck_path, dir=dirp, base=base_name, esmry=bool(case["esmry"]), blocks=blocks,
                    singles=req["misc"], regnames=req["regkw"], wells=req["wells"], keys=stkeys, steps=steps)
         keys = [make_key(kw, wg, num, grid) for (kw, wg, num) in wanted]
         if len(set(keys)) != len(keys):
@@ -931,14 +967,21 @@ class C10(Check):
         if sv[:3] != [d, mo, y] or (len(sv) > 3 and sv[3:5] != [h, mi]):
             return V("start_v", [sv, case["start"]])
         if rd["startdate"] != self.start_secs(case):
-            return V("startdate", [rd["startdate"], self.start_secs(case)])
+            if "ExtESmry" in who and rd["startdate"] == self.start_secs(case) - s and s:
+                # genuine: reported at the end of the case so that everything else is still checked
+                self.deferred.append(V("startdate lacks the seconds of the start time",
+                                       {"got": rd["startdate"], "want": self.start_secs(case), "start": case["start"],
+                                        "start_v": sv}, "extesmry-start-seconds-dropped"))
+            else:
+                return V("startdate", [rd["startdate"], self.start_secs(case)])
         for i, k in enumerate(keys_dumped):
             bad = self.cmp_series(fmt, exp["series"][k], rd["data"][i])
             if bad is not None:
                 return V("series differs", {"key": k, "at": bad, "nvect": len(exp["allkeys"]), "M": M,
                                             "file_pos": exp.get("pos", {}).get(k)})
             if rd["units"][i].rstrip() != exp["units"][k].rstrip():
-                if k == "YEARS" and rd["units"][i] == "" and who.startswith("writer's ESMRY") and case["writer"] == "lib":
+                if k == "YEARS" and rd["units"][i] == "" and case["writer"] == "lib" and "ExtESmry" in who \
+                        and "make_esmry_file" not in who:
                     # genuine, minor: reported once at the end of the case so that everything else is still checked
                     self.deferred.append(V("unit", [k, rd["units"][i], exp["units"][k]], "summary-esmry-years-unit"))
                     continue
@@ -948,7 +991,7 @@ class C10(Check):
         if "dates" in rd:
             if len(rd["dates"]) != M:
                 return V("dates length", [len(rd["dates"]), M])
-            s0 = self.start_secs(case)
+            s0 = rd["startdate"]          # (startdate itself is asserted above)
             for m in range(M):
                 t = EC.f32(tw[m])
                 # date = start + TIME days, to the second (+ TIME's own resolution in 8-digit text)
@@ -1039,10 +1082,12 @@ class C10(Check):
             if not mk["made"] or not os.path.exists(epath):
                 return {"rule": "make_esmry_file did not create the ESMRY file", "detail": mk, "key": None}
             who = "make_esmry_file + ExtESmry"
+            ctx.label("path:make_esmry_file")
         else:
             if not os.path.exists(epath):
                 return {"rule": "the writer was asked for an ESMRY file but none exists", "detail": epath, "key": None}
             who = "writer's ESMRY + ExtESmry"
+            ctx.label("path:esmry-by-library" if case["writer"] == "lib" else "path:esmry-by-python")
         left = [f for f in os.listdir(model["dir"]) if "_TMP_" in f]
         if left:
             return {"rule": "temporary ESMRY file left behind", "detail": left, "key": None}
@@ -1064,7 +1109,7 @@ class C10(Check):
 
     def read_digit_heap(self, case, ctx, path, sub, exp):
         from vlib.probe import Probe, ProbeCrash
-        P2 = Probe(ctx.P.exe, env={"MALLOC_PERTURB_": "207", "GLIBC_TUNABLES": "glibc.malloc.tcache_count=0"}, tmp_root=ctx.tmp_root)
+        P2 = Probe(ctx.P.exe, env={"LD_PRELOAD": self.HEAPFILL, "C10_HEAP_FILL": "48"}, tmp_root=ctx.tmp_root)
         try:
             try:
                 rd = P2.call("smry_read", path=path, base_run=False, load="list", list=sub, dump=sub, dates=False)
@@ -1107,38 +1152,51 @@ class C10(Check):
             rkeys.append("TIME")
         diff_vectors = sorted(bm["keys"]) != sorted(om["keys"]) or \
             bm.get("file_order", bm["keys"]) != om.get("file_order", om["keys"])
+        # known defect (see known_findings): ESmry's constructor pairs the KEYWORDS/NUMS of every run with the WGNAMES
+        # of the oldest base run when it fills arrayPos, which only the per-element path (loadData(vectList)/get) uses;
+        # if the continuing run has more vectors than the base run it indexes past the end of that array
         key = "esmry-baserun-wgnames-of-base" if diff_vectors else None
+        more = len(om["keys"]) > len(bm["keys"])
 
-        def lib_read(who, **kw):
+        def lib_read(who, k, **kw):
             try:
                 return P.call(**kw), None
             except LibError as e:
-                return None, {"rule": "%s: reader throws on files of a valid run" % who, "detail": str(e), "key": key}
+                return None, {"rule": "%s: reader throws on files of a valid run" % who, "detail": str(e), "key": k}
+            except ProbeCrash as e:
+                return None, {"rule": "%s: reader crashes on files of a valid run" % who, "detail": str(e),
+                              "stderr": e.stderr[-1500:], "key": k or "crash"}
 
+        ctx.label("path:chained-ESmry")
+        if len(om["restart_root"]) > 72:
+            ctx.label("restart-root>72chars")
         who = "ESmry(loadBaseRunData) loadData()"
-        rd, v = lib_read(who, cmd="smry_read", path=path, base_run=True, load="all", dump=common, rstep_keys=rkeys)
+        rd, v = lib_read(who, key if more else None, cmd="smry_read", path=path, base_run=True, load="all", dump=common,
+                         rstep_keys=rkeys)
         if v:
             return v
         v = self.verify_reply(who, case, rd, common, exp, fmt, rkeys, startdat3=sd3)
         if v:
-            v["key"] = key
             return v
         who = "ESmry(loadBaseRunData) loadData(vectList)/get"
         sub = self.pick_subset(common, case["subset"])
-        rd, v = lib_read(who, cmd="smry_read", path=path, base_run=True, load="list", list=sub, dump=sub, rstep_keys=rkeys)
+        rd, v = lib_read(who, key, cmd="smry_read", path=path, base_run=True, load="list", list=sub, dump=sub,
+                         rstep_keys=rkeys)
         if v:
             return v
         v = self.verify_reply(who, case, rd, sub, exp, fmt, rkeys, startdat3=sd3)
         if v:
-            v["key"] = key
+            if v["rule"].endswith("series differs") or v["rule"].endswith("get_at_rstep"):
+                v["key"] = key
             return v
         # ExtESmry chaining: only ESMRY files carrying the RESTART record (written by the writer) can chain
         if bm["has_esmry"] and om["has_esmry"]:
             who = "ExtESmry(loadBaseRunData)"
+            ctx.label("path:chained-ExtESmry")
             epath = os.path.join(om["dir"], om["base"] + ".ESMRY")
             exp2 = dict(exp)
             exp2["allkeys"] = set(om["keys"])
-            rd, v = lib_read(who, cmd="esmry_read", path=epath, base_run=True,
+            rd, v = lib_read(who, None, cmd="esmry_read", path=epath, base_run=True,
                              load="all" if case["subset"] % 2 else "list", list=sub, dump=common, rstep_keys=rkeys)
             if v:
                 v["key"] = None
